@@ -60,20 +60,30 @@ def translate(text):
 _UNIQ = [0]
 
 
-def file_bytes(ext, payload, with_chart, key_only=False, unique=False):
-    """unique=True adds a property whose key and value differ in every call, so that anything left over from an
-    earlier run (a shared buffer, a cache) shows up as a foreign key in a later file."""
+def file_bytes(ext, payload, with_chart, key_only=False, unique=False, variant=None):
+    """
+    unique=True adds a property whose key and value differ in every call, so that anything left over from an
+    earlier run (a shared buffer, a cache) shows up as a foreign key in a later file.
+    variant: None | 'unterminated' (the last parameter has neither ';' nor a line break behind it)
+                  | 'crlf' (CRLF line ends, also inside a multi-line value)
+    """
     head = b"#VERSION:0.83;\n" if ext == ".ssc" else b""
     body = b"#TITLE:" + payload + b";\n#ARTIST:x;\n" + (b"#GENRE;\n" if key_only else b"")
     if unique:
         _UNIQ[0] += 1
         body += b"#RUN%d:r%d;\n" % (_UNIQ[0], _UNIQ[0])
     if with_chart:
+        # the note data carries an escaped ':' (as attack blocks do), so it only survives if it is escaped again
         if ext == ".ssc":
-            body += b"#NOTEDATA:;\n#STEPSTYPE:dance-single;\n#DESCRIPTION:" + payload + b";\n#NOTES:\n0000\n0000\n;\n"
+            body += b"#NOTEDATA:;\n#STEPSTYPE:dance-single;\n#DESCRIPTION:" + payload + b";\n#NOTES:\n0000\n1{2x\\:4}00\n;\n"
         else:
-            body += b"#NOTES:\n     dance-single:\n     " + payload + b":\n     Easy:\n     1:\n     0,0:\n0000\n0000\n;\n"
-    return head + body
+            body += b"#NOTES:\n     dance-single:\n     " + payload + b":\n     Easy:\n     1:\n     0,0:\n0000\n1{2x\\:4}00\n;\n"
+    if variant == "unterminated":
+        body += b"#CREDIT:last value without semicolon"
+    data = head + body
+    if variant == "crlf":
+        data = data.replace(b"\n", b"\r\n") + b"#BGCHANGES:1=a,\r\n2=b;\r\n"
+    return data
 
 
 class World:
